@@ -18,6 +18,13 @@ impl<'a> StatementEvaluator<'a> {
     }
 
     pub fn evaluate_statement(&mut self) -> Result<(), TracedInterpreterError> {
+        self.program().enter_nested_evaluation()?;
+        let result = self.evaluate_statement_unguarded();
+        self.program().exit_nested_evaluation();
+        result
+    }
+
+    fn evaluate_statement_unguarded(&mut self) -> Result<(), TracedInterpreterError> {
         if self.interpreter.enable_tracing {
             if let Some(line_number) = self.program().get_line_number() {
                 self.interpreter
